@@ -10,6 +10,7 @@ import HcipyVerif.Lemmas.FftSelect
 import HcipyVerif.Lemmas.FftState
 import HcipyVerif.Lemmas.FftPlan
 import HcipyVerif.Lemmas.ZoomN
+import HcipyVerif.Model.FftWeights
 
 /-!
 # C01 — every Fourier transform evaluates the same weighted Fourier sum
@@ -166,6 +167,31 @@ theorem fast_backward_nd_eq_sum (hT : IsChar T) (hE : IsChar E) (hper : ∀ n : 
     (F : List ℕ → C) (js : List ℕ) (hjs : List.Forall₂ (fun j g => j < g.N) js gs) :
     fastBackwardN T E gs F js = sumBackwardN T E wOut gs F js :=
   fastBackwardN_eq_sumBackwardN hT hE hper wOut gs hgs F js hjs
+
+/-- **FastFourierTransform.forward on a grid with per-point weights** (`relative_weights`
+multiplied into the internal array, the cell area `g.w` in `shift_input`): the sum with the
+grid's own weights `w_j = rel_j · g.w`, one axis. -/
+theorem fast_forward_weights_eq_sum (hT : IsChar T) (hE : IsChar E) (hper : ∀ n : ℤ, T (n : K) = 1)
+    (g : Cfg K C) (hN : g.N ≤ g.M) (hMo : g.Mo ≤ g.M) (hcons : g.dT * (g.M : K) * g.δ = 1)
+    (rel f : ℕ → C) (k : ℕ) (hk : k < g.Mo) :
+    fastForwardW T E g rel f k
+      = ∑ j ∈ range g.N, f j * (rel j * g.w) * (T (-(g.a k * g.x j)) * E (-(g.s * g.x j))) := by
+  unfold fastForwardW
+  rw [fast_forward_eq_sum hT hE hper g hN hMo hcons _ k hk]
+  exact Finset.sum_congr rfl fun j _ => by ring
+
+/-- … on `n` axes (iterated pipeline), `relative_weights` an arbitrary `n`-D array: the `n`-D sum
+with per-point weights `rel(js) · Π w_i`. -/
+theorem fast_forward_weights_nd_eq_sum (hT : IsChar T) (hE : IsChar E)
+    (hper : ∀ n : ℤ, T (n : K) = 1) (gs : List (Cfg K C))
+    (hgs : ∀ g ∈ gs, g.N ≤ g.M ∧ g.Mo ≤ g.M ∧ g.dT * (g.M : K) * g.δ = 1)
+    (rel f : List ℕ → C) (ks : List ℕ) (hks : List.Forall₂ (fun k g => k < g.Mo) ks gs) :
+    fastForwardNW T E gs rel f ks
+      = sumOverN (gs.map fun g => g.N) fun js =>
+          f js * (rel js * weightN gs) * (T (-(dotA gs ks js)) * E (-(dotS gs js))) := by
+  unfold fastForwardNW
+  rw [fastForwardN_eq_sumForwardN hT hE hper gs hgs _ ks hks, sumForwardN]
+  exact congrArg _ (funext fun js => by ring)
 
 /-- The index core on its own (the round-0 spike): pad → ifftshift → DFT → fftshift → crop is the
 centred sum, for every `M`-periodic kernel. -/
